@@ -110,6 +110,16 @@ def stage_ops(spec, opts):
     stages.append(("finished-forward", lambda p: p.simulate(**kw)))
     for rev in (True, False):
         stages.append(("finished-backward(rev=%s)" % rev, lambda p, rev=rev: p.backward_simulate(**dict(kw, reverse_log_information=rev))))
+
+    def edited(p, lst, remove_first=False):
+        p.simulate(**dict(kw, absence_time_list=[0, 1] if remove_first else list(kw.get("absence_time_list", []))))
+        if remove_first:
+            p.remove_absence_time_list()
+        p.insert_absence_time_list(lst)
+
+    stages.append(("finished+inserted[0,1]", lambda p: edited(p, [0, 1])))
+    stages.append(("finished+inserted[2]", lambda p: edited(p, [2])))
+    stages.append(("finished(abs)+removed+inserted[0,1]", lambda p: edited(p, [0, 1], True)))
     return stages
 
 
@@ -212,6 +222,14 @@ def models(tier, tmpdir):
         out.append((sp, {"rule": "TSLACK", "max_time": F.seq_bound(sp) + 8}, "fac"))
     for sp in F.rule_sensitive_specs():
         out.append((sp, {"rule": "TSLACK", "max_time": F.seq_bound(sp) + 8}, "rules"))
+    # conveyor links declared on the downstream workplace only (constructor keyword), a team wired by keyword, same-named objects
+    for sp0 in F.fac_specs("quick"):
+        if sp0["label"] in ("fac:2:per-task:two-conveyor:plain:both",):
+            sp = dict(sp0, workplaces=[dict(wp, wire_inputs="one-sided") for wp in sp0["workplaces"]], teams=[dict(tm, wire="ctor") for tm in sp0["teams"]])
+            out.append((sp, {"rule": "TSLACK", "max_time": F.seq_bound(sp) + 8}, "one-sided-wiring"))
+    out.append((F.shared_child_spec(), {"rule": "TSLACK", "max_time": 20}, "shared-child"))
+    for sp in F.same_name_task_specs()[:2]:
+        out.append((sp, {"rule": "TSLACK", "max_time": 14}, "same-name"))
     # sub-project task, configured from a saved result and (second model) never configured
     sub = F.with_teams({"tasks": [{"name": "T0", "work": 2.0}], "links": []}, "POOL1")
     ms = S.build(sub)
